@@ -132,7 +132,7 @@ func fmtEpochs(e [4]common.Epoch) string {
 // Fast is the minimal preset with every waiting period shortened so that each kind of event happens within
 // a few epochs (the work-horse configuration): exits after 1 epoch of activity, withdrawable 1 epoch after
 // exit, exit/activation delay 2 epochs, eth1 voting period of one epoch, sync-committee period of 2 epochs,
-// leak after 2 epochs, strong leak, hair-trigger hysteresis and ejection at 31 ETH.
+// leak after 2 epochs, strong leak, hair-trigger hysteresis, ejection at 31 ETH, slashings vector of 8 epochs.
 // ID "fast@a,b,c,d".
 func Fast(altair, bellatrix, capella, deneb common.Epoch) *Config {
 	s := cloneSpec(configs.Minimal)
@@ -154,6 +154,7 @@ func Fast(altair, bellatrix, capella, deneb common.Epoch) *Config {
 	s.CHURN_LIMIT_QUOTIENT = 16
 	s.MAX_VALIDATORS_PER_WITHDRAWALS_SWEEP = 8
 	s.MAX_WITHDRAWALS_PER_PAYLOAD = 2
+	s.EPOCHS_PER_SLASHINGS_VECTOR = 8 // proportional slashing penalty 4 epochs after the slashing, withdrawable after 8
 	return &Config{ID: "fast@" + fmtEpochs([4]common.Epoch{altair, bellatrix, capella, deneb}), Spec: s}
 }
 
